@@ -370,9 +370,13 @@ def _collect_bound_values(
         if isinstance(node, GraphNode):
             # Get bound values from the inner graph
             inner_bound = node.graph.inputs.bound
-            # Merge into all_bound (current graph's values take precedence)
-            for key, value in inner_bound.items():
-                if key not in all_bound:
-                    all_bound[key] = value
+            # Merge into all_bound (current graph's values take precedence).
+            # Inner bindings are keyed by the inner graph's own names: expose each
+            # one under the name the GraphNode currently gives that input, so a
+            # renamed input does not leak into an unrelated outer name.
+            for param in node.inputs:
+                original = node._resolve_original_input_name(param)
+                if original in inner_bound and param not in all_bound:
+                    all_bound[param] = inner_bound[original]
 
     return all_bound
